@@ -22,6 +22,7 @@ import (
 	"os"
 	"path/filepath"
 	"reflect"
+	"regexp"
 	"sort"
 	"strconv"
 	"strings"
@@ -338,11 +339,67 @@ func c05bCorr(c *Ctx, st *h.Stage, cases []*c05bCase) error {
 		}
 		st.Tag("corr=equal")
 	}
+	for i, cs := range cases {
+		c05bJudge(c, st, cs, trigs[i])
+	}
 	return nil
 }
 
 // trigger name → id of the open known finding
 var c05bOpen = map[string]string{}
+
+
+var c05bTextNumRefRe = regexp.MustCompile(`&#0*(60|38);|&#x0*(3[cC]|26);`)
+
+// clause → triggers of known findings that excuse it (ids from known_findings.json)
+var c05bExcuse = map[string][]string{
+	"attr-value": {"foreignAttr"}, "wf": {"textNumRef", "foreignAttr", "emptyFO", "styleAmp"}, "text": {"textNumRef", "foreignAttr"}, "ns": {"svgPrefix", "foPrefix"}, "pi": {"pi"},
+	"doctype": {"doctypeSpace"}, "attr-text": {"textAttrDim"}, "attr-lost-type": {"styleType"}, "tree": {"foreignAttr"}, "attr-lost": {"foreignAttr"}, "attr-extra": {"foreignAttr"},
+}
+
+// c05bJudge: the property on the real output (independent of the model); trigs = token-level triggers from Lean
+func c05bJudge(c *Ctx, st *h.Stage, cs *c05bCase, leanTrigs map[string]bool) {
+	if cs.cfg.sub == "stub" {
+		st.Tag("oracle=skipped(stub style minifier writes markup characters)")
+		return
+	}
+	cl, desc, trig, inWF := c05bJudgeTree(cs.src, cs.out, cs.cfg)
+	if !inWF {
+		st.Tag("oracle=input-not-wf(skipped)")
+		return
+	}
+	for t := range leanTrigs {
+		trig[t] = true
+	}
+	for _, t := range cs.toks {
+		if t.tt == pxml.TextToken && c05bTextNumRefRe.Match(t.data) {
+			trig["textNumRef"] = true
+		}
+	}
+	trig["textAttrDim"] = cl == "attr-text"
+	for t, on := range trig {
+		if on {
+			st.Tag("trigger=" + t)
+		}
+	}
+	if cl == "" {
+		if trig["defs1"] && c05bOpen["defs1"] != "" {
+			c.R.ExcludedKnown++
+			st.Tag("oracle=holds-modulo-known(" + c05bOpen["defs1"] + ")")
+			return
+		}
+		st.Tag("oracle=holds")
+		return
+	}
+	for _, t := range c05bExcuse[cl] {
+		if trig[t] && c05bOpen[t] != "" {
+			c.R.ExcludedKnown++
+			st.Tag("oracle=fails-under-known-trigger(" + c05bOpen[t] + ")")
+			return
+		}
+	}
+	c.R.Add(h.Finding{Stage: st.Name, Kind: "fail", What: "svg structure: clause " + cl + " fails on the real output (" + desc + ")", Input: cs.key, Hex: h.Hex(cs.src), Config: cs.cfg.String(), Impl: h.Q(c05bClip(cs.out))})
+}
 
 var c05bCfgs = []c05bCfg{
 	{false, false, "css"}, {true, false, "css"}, {false, true, "css"}, {true, true, "none"}, {false, false, "none"}, {false, false, "stub"}, {true, true, "stub"},
@@ -353,6 +410,11 @@ func init() {
 		for _, k := range h.Known("C05B") {
 			if k.Status == "open" && k.Trigger != "" {
 				c05bOpen[k.Trigger] = k.ID
+			}
+		}
+		for _, k := range h.Known("C05") { // findings of the same property recorded by the path-data half
+			if k.Status == "open" && k.ID == "K-C05-7" {
+				c05bOpen["defs1"] = k.ID
 			}
 		}
 		st := c.R.StartStage("fixed", "hand-written SVG documents (svg_test.go shapes, every branch of the loop) x configurations; model on the real lexer's tokens vs svg.Minify bytes; non-trivial = output differs from input")
